@@ -161,6 +161,7 @@ def check_deformation(cls, mx, seed, V, masked):
 def check_composite(seed, V):
     a = molecule(np.random.default_rng(seed))
     parts = [Box(0.3), Ball(0.2), Sphere(0.1)]
+    parts = parts + [parts[2], parts[0]]          # repeated objects are evaluated again (independent draws)
     r = RecRng(seed)
     tot = CompositeOperation(parts).calculate(ctx_for(a, r, [0]))
     r2 = RecRng(seed)
